@@ -843,7 +843,9 @@ def batches(ctx):
     outcomes = {}
 
     def impl_mal(c):
-        r = impl(c)
+        return impl(c)
+
+    def observe_mal(c, r):        # parent process (Batch.observe)
         if r["back"] is None:
             k = "raises " + str(r["error"])
         elif r["back"]["input"]["O"] == c["O"] and _as_map(r["back"]["omap"]) == _as_map(c["omap"]) and _as_map(r["back"]["input"]["leafmap"]) == _as_map(c["leafmap"]):
@@ -852,13 +854,12 @@ def batches(ctx):
             k = "reads back a different mapping (items merged / redirected to the first node of that name)"
         outcomes[k] = outcomes.get(k, 0) + 1
         ctx.dist["malformed_duplicate_names"] = dict(outcomes)
-        return r
 
     tin, td, tx, run, eqb = tys["RO"]
     yield Batch(
         name="malformed", header=HEADER, run=run, eqb=eqb,
         ty_in=tin, ty_out=f"option {td} * option {tx} * option {td} * bool",
-        cases=mal, impl=impl_mal, enc_in=enc_in,
+        cases=mal, impl=impl_mal, observe=observe_mal, enc_in=enc_in,
         enc_out=lambda c, r: cpair(enc_dict("RO", r["dict"]), enc_back("RO", r["back"]), enc_dict("RO", r["redict"]),
                                    cbool(True)),   # events/cost of a merged mapping are not compared here
         oracle=oracle, nontrivial=lambda c, r: False, exhaustive=False, shard=40 if quick else 120,
